@@ -254,6 +254,133 @@ fn core_level(tier: &str, t: &mut Trace, c: &mut Counters) {
     }
 }
 
+
+// ------------------------------------------------------------------------------------------- keys nobody else holds
+
+fn hexfp(fp: [u8; 16]) -> String {
+    hex(&fp)
+}
+
+/// fingerprints of the four key slots of one end (Envelope!KeyAt: a slot holds the session key both ends share, or a
+/// private dummy nobody else holds - not the other end, not another connection, not another slot)
+fn slot_entry(core: &CryptoCore, conn: [u8; 2], end: u8) -> Value {
+    let fps: Vec<String> = (0..4).map(|k| hexfp(core.verif_slot_fingerprint(k))).collect();
+    json!({"conn": conn, "end": end, "fps": fps})
+}
+
+/// a datagram sealed by an outsider: chosen key id, counter and nonce half, under a key he can know without having seen
+/// any secret (constant patterns) - Envelope.tla: its key is never the key a slot holds, so it opens nowhere
+fn forge(algo: &'static ring::aead::Algorithm, key_byte: u8, keyid: u8, half: u8, ctr: [u8; 7], payload: &[u8]) -> Vec<u8> {
+    let key = new_key(algo, &[key_byte; 32]);
+    let mut nonce = [0u8; 12];
+    nonce[0] = half;
+    nonce[5..].copy_from_slice(&ctr);
+    let mut data = payload.to_vec();
+    let tag = key.seal_in_place_separate_tag(ring::aead::Nonce::assume_unique_for_key(nonce), ring::aead::Aad::empty(), &mut data).unwrap();
+    let mut d = vec![keyid];
+    d.extend_from_slice(&ctr);
+    d.extend_from_slice(&data);
+    d.extend_from_slice(tag.as_ref());
+    d
+}
+
+fn forged_members(algo: &'static ring::aead::Algorithm, payload: &[u8]) -> Vec<(Value, Vec<u8>)> {
+    let mut v = vec![];
+    for key_byte in [0x00u8, 0xff, 0x01, 0x55] {
+        for keyid in 0..4u8 {
+            for half in [0x00u8, 0x80] {
+                for ctr in [[0u8; 7], [0, 0, 0, 0, 0, 0, 1], [0xff; 7], [0x7f, 1, 2, 3, 4, 5, 6]] {
+                    v.push((json!({"key_byte": key_byte, "keyid": keyid, "half": half, "ctr": hex(&ctr)}), forge(algo, key_byte, keyid, half, ctr, payload)));
+                }
+            }
+        }
+    }
+    v
+}
+
+/// C02 at core level, the parts that need more than one step: slot contents, outsider-sealed datagrams, and that a
+/// rejected datagram has no lasting effect (after it, and after any number of housekeeping ticks, the genuine sender's
+/// next datagrams are delivered byte-identical)
+fn core_history(tier: &str, t: &mut Trace, c: &mut Counters) {
+    let mut rng = rng(75);
+    for (ai, algo) in ALGOS.iter().enumerate() {
+        let cipher = ALGO_NAMES[ai];
+        let (mut s, mut r) = create_dummy_pair(algo);
+        let (s2, r2) = create_dummy_pair(algo);
+        c.cases += 1;
+        t.ev(json!({"op":"slots","level":"core","cipher":cipher,
+                    "entries":[slot_entry(&s, [1, 2], 1), slot_entry(&r, [1, 2], 2), slot_entry(&s2, [1, 3], 1), slot_entry(&r2, [1, 3], 3)]}));
+        let p = payload_of(&mut rng, 48);
+        let mut fam = Fam::new();
+        for (desc, d) in forged_members(algo, &p) {
+            for rec in [&mut s, &mut r] {
+                let res = core_open(rec, &d, 8);
+                fam.add(&res, desc.clone());
+            }
+        }
+        let mut e = fam.event("core", "forged", "key", cipher, 48, &CORE_OK, "none", c);
+        e["from"] = json!(0);
+        t.ev(e);
+        // rejected datagrams of every tamper class, then k ticks, then fresh genuine datagrams in both directions
+        let rounds = if tier == "thorough" { 12 } else { 5 };
+        for round in 0..rounds {
+            let len = [0usize, 1, 16, 64, 300, 1400][round % 6];
+            let p = payload_of(&mut rng, len);
+            let d = core_seal(&mut s, &p, 8);
+            let back = core_seal(&mut r, &p, 8);
+            let mut fams: Vec<(&str, Fam)> = vec![("keyid", Fam::new()), ("ctr", Fam::new()), ("ct", Fam::new()), ("tag", Fam::new())];
+            for (dg, rec) in [(&d, &mut r), (&back, &mut s)] {
+                let total = dg.len();
+                for bit in 0..total * 8 {
+                    if bit / 8 >= HEADER && bit % 5 != round % 5 {
+                        continue; // every header bit, a fifth of the rest
+                    }
+                    let mut e = dg.clone();
+                    e[bit / 8] ^= 1 << (bit % 8);
+                    let res = core_open(rec, &e, 8);
+                    let f = field_of(bit, total);
+                    fams.iter_mut().find(|x| x.0 == f).unwrap().1.add(&res, json!({"bit": bit % 8, "byte": bit / 8}));
+                }
+            }
+            for (f, fam) in fams {
+                if fam.members > 0 {
+                    t.ev(fam.event("core", "bitflip", f, cipher, len, &CORE_OK, f, c));
+                }
+            }
+            // the originals are delivered, then time passes, then new traffic
+            for (dg, rec, who) in [(&d, &mut r, 2u8), (&back, &mut s, 1u8)] {
+                let (same, res) = match core_open(rec, dg, 8) {
+                    Opened::Yes(q) => (q == p, "ok"),
+                    Opened::No => (false, "err"),
+                    Opened::Panic(_) => (false, "panic"),
+                };
+                c.cases += 1;
+                c.members += 1;
+                t.ev(json!({"op":"roundtrip","level":"core-after-tamper","cipher":cipher,"type":-1,"len":len,"offset":8,"roffset":8,"plain":false,
+                            "conn":[1,2],"from":3 - who,"on":[1,2],"at":who,"alt":"none","dlen":dg.len(),"same":same,"res":res,"ticks":0}));
+            }
+            for tick in 1..=4u64 {
+                s.every_second();
+                r.every_second();
+                let q = payload_of(&mut rng, len);
+                let d2 = core_seal(&mut s, &q, 8);
+                let b2 = core_seal(&mut r, &q, 8);
+                for (dg, rec, who) in [(&d2, &mut r, 2u8), (&b2, &mut s, 1u8)] {
+                    let (same, res) = match core_open(rec, dg, 8) {
+                        Opened::Yes(x) => (x == q, "ok"),
+                        Opened::No => (false, "err"),
+                        Opened::Panic(_) => (false, "panic"),
+                    };
+                    c.cases += 1;
+                    c.members += 1;
+                    t.ev(json!({"op":"roundtrip","level":"core-after-tamper","cipher":cipher,"type":-1,"len":len,"offset":8,"roffset":8,"plain":false,
+                                "conn":[1,2],"from":3 - who,"on":[1,2],"at":who,"alt":"none","dlen":dg.len(),"same":same,"res":res,"ticks":tick}));
+                }
+            }
+        }
+    }
+}
+
 // ------------------------------------------------------------------------------------------- PeerCrypto level
 
 fn peer_seal(from: &mut PeerCrypto<NodeInfo>, ty: u8, payload: &[u8], space: usize) -> Result<Vec<u8>, String> {
@@ -507,6 +634,45 @@ fn mesh(tier: &str, t: &mut Trace, c: &mut Counters, failures: &mut Vec<String>)
         }
         let names: Vec<&str> = objs.iter().map(|o| o.0.algorithm_name()).collect();
         t.ev(json!({"op":"session","name":format!("mesh{:?}", plan),"cipher":names.join("/"),"cipher_b":names.join("/"),"plain":false,"want_plain":false}));
+        // slot contents of all six ends, and outsider-sealed datagrams at every end
+        let mut entries = vec![];
+        for k in 0..3 {
+            if let (Some(a), Some(b)) = (objs[k].0.verif_core().map(|x| slot_entry(x, conns[k], conns[k][0])), objs[k].1.verif_core().map(|x| slot_entry(x, conns[k], conns[k][1]))) {
+                entries.push(a);
+                entries.push(b);
+            }
+        }
+        c.cases += 1;
+        t.ev(json!({"op":"slots","level":"mesh","cipher":names.join("/"),"entries":entries}));
+        for k in 0..3 {
+            let algo = ALGOS[ALGO_NAMES.iter().position(|n| *n == names[k]).unwrap_or(0)];
+            let p = payload_of(&mut rng, 40);
+            for side in 0..2 {
+                let mut fam = Fam::new();
+                for (desc, d) in forged_members(algo, &p) {
+                    for ty in [0u8, 1] {
+                        // (the type byte is inside the sealed part: the outsider seals type + payload)
+                        let mut q = vec![ty];
+                        q.extend_from_slice(&p);
+                        let _ = &d;
+                        let dd = {
+                            let kb = desc["key_byte"].as_u64().unwrap() as u8;
+                            let kid = desc["keyid"].as_u64().unwrap() as u8;
+                            let half = desc["half"].as_u64().unwrap() as u8;
+                            let ctr: Vec<u8> = unhex(desc["ctr"].as_str().unwrap());
+                            let mut c7 = [0u8; 7];
+                            c7.copy_from_slice(&ctr);
+                            forge(algo, kb, kid, half, c7, &q)
+                        };
+                        let to = if side == 0 { &mut objs[k].0 } else { &mut objs[k].1 };
+                        let (res, _) = peer_open(to, &dd, 100);
+                        fam.add(&res, desc.clone());
+                    }
+                }
+                let who = Who { conn: conns[k], from: 0, on: conns[k], at: conns[k][side] };
+                t.ev(fam.event("mesh", "forged", "key", names[k], 40, &who, "none", c));
+            }
+        }
         let lens: Vec<usize> = if tier == "thorough" { vec![0, 1, 7, 8, 23, 24, 64, 300, 1400, 9000] } else { vec![0, 1, 23, 64, 1400] };
         for k in 0..3 {
             for side in 0..2 {
@@ -578,6 +744,7 @@ pub fn run(args: &[String]) -> Value {
     let mut c = Counters { cases: 0, members: 0 };
     let mut failures = vec![];
     core_level(tier, &mut t, &mut c);
+    core_history(tier, &mut t, &mut c);
     peer_level(tier, &mut t, &mut c, &mut failures);
     mesh(tier, &mut t, &mut c, &mut failures);
     let events = t.finish();
